@@ -968,6 +968,9 @@ def run(rep, tier, seed):
     if _SELFTEST and rep.violations:
         return     # binding demonstration: the first phase that notices a mutant is enough
     phase_traces(rep, thorough, seed)
+    if _SELFTEST and rep.violations:
+        return
+    phase_geomconv(rep, thorough, seed)
 
     # 4. thorough: the full test reactor (blueprints, 73 assemblies, 9 rings) through one long history
     if thorough and not _SELFTEST:
@@ -1045,6 +1048,161 @@ def phase_traces(rep, thorough, seed):
                    "real code; every event (call, complete projected post-state) must be a step of SymmetryConversion")
     rep.sample({"kind": "trace", "id": traces[0]["id"], "pat": traces[0]["pat"], "calls": [e["a"] for e in traces[0]["ev"]]})
     report_bad(rep, bad, "trace")
+
+
+# ------------------------------------------------------------------------------------------------------------
+# geomconv: HexToRZThetaConverter against spec/core/GeometryConversion.tla (pure function over a discrete domain of cases)
+# ------------------------------------------------------------------------------------------------------------
+GMOD = "GeometryConversion_mc"
+G_LETTERS = {"reflector": "SS"}          # every other assembly type: grid plate + fuel ("GF"); all stacks are 40 cm high
+RTOL_HOMOG = 1e-9                        # sums of <= ~40 products of doubles against the same sums taken with exact heights
+
+
+class RZAdapter:
+    """Generated FULL hex cores driven through the real HexToRZThetaConverter."""
+
+    def __init__(self):
+        armi_ready()
+        from armi import settings
+        from armi.reactor.converters import geometryConverters
+
+        self.gc = geometryConverters
+        self.cs = settings.Settings()
+
+    def build(self, case):
+        g = gen_core.build_core(layout={}, fresh={}, places={}, n_locs=1, track=False, symmetry="full")
+        w = World()
+        w.r, w.core, w.src = g.r, g.core, {}
+        for n, (cell, typ) in enumerate(case["cells"], start=1):
+            a = gen_core.make_assembly(n, G_LETTERS.get(typ, "GF"), assem_num=w.r.incrementAssemNum())
+            a.setType(typ)
+            w.core.add(a, w.core.spatialGrid[cell[0], cell[1], 0])
+            w.src[tuple(cell)] = a
+        w.nucs = sorted({n for b in w.core.getBlocks() for n in b.getNuclides()})
+        w.r.blueprints.allNuclidesInProblem = list(w.nucs)
+        return w
+
+    def convert(self, w, case):
+        conv = self.gc.HexToRZThetaConverter(self.cs, {
+            "radialConversionType": "Ring Compositions", "axialConversionType": "Axial Coordinates", "uniformThetaMesh": True,
+            "thetaBins": case["nb"], "axialMesh": [float(x) for x in case["mesh"]], "thetaMesh": None}, expandReactor=False)
+        conv.convert(w.r)
+        return conv
+
+    def check(self, case, exp):
+        """first difference between what the real converter builds and the specification's result, or None"""
+        w = self.build(case)
+        n_src = len(w.core)
+        try:
+            conv = self.convert(w, case)
+        except ValueError as ex:
+            return None if exp["err"] == "ValueError" else ".err: expected a converted reactor, ValueError raised: %s" % str(ex)[:160]
+        if exp["err"]:
+            return ".err: expected ValueError (a radial-theta zone without assemblies), the converter went through"
+        new = conv.convReactor.core
+        if len(w.core) != n_src:
+            return ".source: the source core has %d assemblies after the conversion, %d before" % (len(w.core), n_src)
+        nz, nb = len(exp["zones"]), case["nb"]
+        if len(new) != nz * nb:
+            return ".zones: expected %d radial zones x %d theta bins, the converted core has %d assemblies" % (nz, nb, len(new))
+
+        def close(e, g):
+            return abs(e - g) <= RTOL_HOMOG * max(abs(e), abs(g))
+
+        for z in range(nz):
+            for k in range(nb):
+                a = new.childrenByLocator.get(new.spatialGrid[k, z, 0])
+                if a is None:
+                    return ".zones[%d].bins[%d]: no assembly at (theta %d, radial %d)" % (z, k, k, z)
+                eblocks = exp["blocks"][z][k]
+                if len(a) != len(eblocks):
+                    return ".blocks[%d][%d]: expected %d axial blocks, observed %d" % (z, k, len(eblocks), len(a))
+                zlow = 0.0
+                for ai, (b, eb) in enumerate(zip(a, eblocks)):
+                    where = ".blocks[%d][%d][%d]" % (z, k, ai)
+                    if not close(float(eb["height"]), float(b.getHeight())) or not close(float(b.p.ztop - b.p.zbottom), float(eb["height"])):
+                        return "%s.height: expected %r, observed %r (zbottom %r, ztop %r)" % (where, eb["height"], b.getHeight(), b.p.zbottom, b.p.ztop)
+                    if not close(zlow + 1.0, float(b.p.zbottom) + 1.0):
+                        return "%s.mesh: block starts at %r, the one below ends at %r" % (where, b.p.zbottom, zlow)
+                    zlow = float(b.p.ztop)
+                    if b.getType() != eb["type"]:
+                        return "%s.type: expected %r, observed %r" % (where, eb["type"], b.getType())
+                    srcs = [(w.src[tuple(c)][bi - 1], float(h)) for c, bi, _kind, h in eb["ov"]]
+                    got_src = {id(x) for x in conv.blockMap[b]}
+                    if got_src != {id(sb) for sb, _h in srcs}:
+                        return "%s.sources: the converter homogenised %d source blocks here, the specification %d" % (where, len(got_src), len(srcs))
+                    evol = math.fsum(sb.getVolume() / sb.getHeight() * h for sb, h in srcs)
+                    if not close(evol, float(b.getVolume())):
+                        return "%s.volume: expected %r, observed %r" % (where, evol, float(b.getVolume()))
+                    for nuc in w.nucs:
+                        e = math.fsum(sb.getNumberDensity(nuc) * sb.getVolume() / sb.getHeight() * h for sb, h in srcs)
+                        g = float(b.getNumberDensity(nuc)) * float(b.getVolume())
+                        if not (close(e, g) or (e == 0.0 and abs(g) < 1e-30)):
+                            return "%s.atoms.%s: expected %r, observed %r" % (where, nuc, e, g)
+                if not close(zlow, float(case["mesh"][-1])):
+                    return ".blocks[%d][%d].top: stack ends at %r, mesh at %r" % (z, k, zlow, case["mesh"][-1])
+        # (sum over blocks on both sides: Assembly.getVolume is "area of the first block x height", which is not the volume
+        #  of a stack whose blocks have different cross-sections -- true of the generated stacks and of a homogenised one)
+        vs = math.fsum(float(b.getVolume()) for b in w.core.getBlocks())
+        vn = math.fsum(float(b.getVolume()) for a in new for b in a)
+        if not close(vs, vn):
+            return ".total.volume: source %r, converted %r" % (vs, vn)
+        for nuc in w.nucs:
+            e, g = float(w.core.getMass(nuc)), float(new.getMass(nuc))
+            if not close(e, g):
+                return ".total.mass.%s: source %r, converted %r" % (nuc, e, g)
+        return None
+
+
+_GEMIT = {}
+
+
+def phase_geomconv(rep, thorough, seed):
+    """5. HexToRZThetaConverter: TLC checks partition / conservation / mesh on every case; the thetaBins = 1 cases are replayed"""
+    sfx = "_thorough" if thorough else ""
+    if not _SELFTEST:
+        res = tlc.run(GMOD, "GeometryConversion_mc%s.cfg" % sfx, MODDIR, want_prints=False, timeout=3000)
+        rep.add_tlc("geomconv:exhaustive:GeometryConversion_mc%s.cfg" % sfx, res)
+        if res.violation:
+            rep.violation("rzt:tlc:" + res.violation["name"], "TLC: %s violated in GeometryConversion" % res.violation["name"],
+                          {"direction": "tlc", "trace": res.violation["trace"][:20000]})
+        never = [a for a in ("Convert", "ConvertRefused") if res.coverage.get(a, (0, 0))[1] == 0]
+        if never:
+            raise tlc.MachineryError("vacuous: GeometryConversion actions never taken: %s" % never)
+    ecfg = "GeometryConversion_emit%s.cfg" % sfx
+    if ecfg not in _GEMIT:
+        _GEMIT[ecfg] = tlc.run(GMOD, ecfg, MODDIR, workers=1, coverage=False, timeout=3000)
+    eres = _GEMIT[ecfg]
+    rep.add_tlc("geomconv:cases:" + ecfg, eres)
+    cases = [p for p in eres.prints if isinstance(p, dict) and "case" in p]
+    if not cases:
+        raise tlc.MachineryError("GeometryConversion emitted no case")
+    ad = RZAdapter()
+    n = refused = 0
+    for p in cases:
+        case, exp = p["case"], p["out"]
+        try:
+            d = ad.check(case, exp)
+        except Exception as ex:  # noqa: BLE001  anything but the modelled refusal escaping the converter is a verdict
+            import traceback
+
+            d = ".exception: %s escaped from the real converter: %s" % (type(ex).__name__, str(ex)[:200])
+            exp = dict(exp, traceback=traceback.format_exc()[-2000:])
+        n += 1
+        refused += bool(p["out"]["err"])
+        if d:
+            fld = re.sub(r"\[\d+\]", "", d.split(":")[0]).strip(".")
+            rep.violation("rzt:%s:nb%d" % (fld, case["nb"]),
+                          "HexToRZThetaConverter differs from GeometryConversion on centre=%s ring2=%s ring3=%s thetaBins=%d mesh=%s: %s" % (
+                              case["centre"], case["d2"], case["d3"], case["nb"], case["mesh"], d),
+                          {"direction": "geomconv", "case": case, "expected": exp, "difference": d})
+    rep.add_replay("geomconv-cases", n, n - refused,
+                   "every case TLC prints for GeometryConversion (loading x axial mesh, thetaBins = 1) is converted by the real "
+                   "HexToRZThetaConverter on a generated full core; zones, homogenised source blocks, block types, heights, "
+                   "volumes and the atoms of every nuclide are compared block by block, and the core totals")
+    rep.extra["geomconv"] = {"cases_replayed": n, "refusals_among_them": refused}
+    rep.sample({"kind": "geomconv-case", "case": {k: cases[len(cases) // 2]["case"][k] for k in ("centre", "d2", "d3", "nb", "mesh")},
+                "expected_zones": cases[len(cases) // 2]["out"]["zones"]})
 
 
 def report_bad(rep, bad, prefix):
@@ -1148,6 +1306,10 @@ def replay(payload):
                 print("event %d %s: %s" % (k + 1, e["a"], d or "matches the specification now"))
                 return 1 if d else 0
         return 0
+    if payload.get("direction") == "geomconv":
+        d = RZAdapter().check(payload["case"], payload["expected"])
+        print(d or "no difference: the real converter conforms on this case")
+        return 1 if d else 0
     print("replay of direction=%s: see payload (TLC trace)" % payload.get("direction"))
     return 0
 
@@ -1389,6 +1551,16 @@ def mutants():
         ("scaleParamsRelatedToSymmetry pairs the two lines in opposite order",
          S(E, "scaleParamsRelatedToSymmetry", "core.getAssembliesOnSymmetryLine(grids.BOUNDARY_120_DEGREES),",
            "core.getAssembliesOnSymmetryLine(grids.BOUNDARY_120_DEGREES)[::-1],")),
+        # -- HexToRZThetaConverter (geomconv stage) ------------------------------------------------------------------
+        ("RZ conversion: a block that lies partly in the axial interval is homogenised with its whole volume",
+         S(gc.HexToRZThetaConverter, "createHomogenizedRZTBlock", "blockVolumeHere = b.getVolume() * heightHere / b.getHeight()",
+           "blockVolumeHere = b.getVolume()")),
+        ("RZ conversion: fuel no longer decides the type of a homogenised block",
+         lambda: P(gc.HexToRZThetaConverter, "_BLOCK_MIXTURE_TYPE_EXCLUSIONS", [])),
+        ("RZ conversion: assembly types of a ring are taken in increasing instead of decreasing (count, name)",
+         S(gc.HexToRZThetaConverter, "_getSortedAssemblyTypesInRadialZone", "reverse=True", "reverse=False")),
+        ("RZ conversion: ring area taken twice (outer radius of every radial zone too large)",
+         S(gc.HexToRZThetaConverter, "_createRadialThetaZone", "radialRingArea = (", "radialRingArea = 2.0 * (")),
         ("removeEdgeAssemblies removes only what the changer added itself",
          S(E, "removeEdgeAssemblies", "edgeAssemblies = core.getAssembliesOnSymmetryLine(grids.BOUNDARY_120_DEGREES)",
            "edgeAssemblies = list(self._newAssembliesAdded)")),
